@@ -24,6 +24,14 @@ type vSession struct {
 	h    *vDB
 	acks []vAck
 	nv   int
+	opts []ExtraOption // for the restart step
+}
+
+// restart: clean Close, then Open again in the same process; the kill may come at any call of either.
+func (s *vSession) restart(id string) {
+	s.h.close()
+	vrt.Assert(s.h.open(s.opts...) == nil, id+"/open-after-clean-close-no-error")
+	vrt.Reach(id + "/restart")
 }
 
 func (s *vSession) put(k []byte) {
@@ -45,7 +53,9 @@ func vSessionProgram(s *vSession, steps int, withClose bool) {
 	h := s.h
 	n := vrt.Range("steps", 1, steps)
 	for i := 0; i < n; i++ {
-		switch vrt.Choose(vrt.K("op", i), 5) {
+		switch vrt.Choose(vrt.K("op", i), 6) {
+		case 5:
+			s.restart("crash")
 		case 0:
 			s.put(h.ref[vrt.Choose(vrt.K("key", i), len(h.ref))].key)
 		case 1:
@@ -156,8 +166,9 @@ func H_C02_Crash() {
 	defer h.fs.Cleanup()
 	base := h.fs.Base()
 	h.fs.TraceStart()
-	vrt.Assert(h.open(vCrashOptsM(false, vrt.U64("memstore"))...) == nil, "crash/open-no-error")
-	s := &vSession{h: h}
+	opts := vCrashOptsM(false, vrt.U64("memstore"))
+	vrt.Assert(h.open(opts...) == nil, "crash/open-no-error")
+	s := &vSession{h: h, opts: opts}
 	steps := 3
 	if vrt.Thorough() {
 		steps = 4
@@ -294,8 +305,9 @@ func H_C13_AsyncCrash() {
 	defer h.fs.Cleanup()
 	base := h.fs.Base()
 	h.fs.TraceStart()
-	vrt.Assert(h.open(vCrashOptsM(true, vrt.U64("memstore"))...) == nil, "async/open-no-error")
-	s := &vSession{h: h}
+	opts := vCrashOptsM(true, vrt.U64("memstore"))
+	vrt.Assert(h.open(opts...) == nil, "async/open-no-error")
+	s := &vSession{h: h, opts: opts}
 	var rotations []string
 	var acksAtRotation []int
 	steps := 3
@@ -304,7 +316,12 @@ func H_C13_AsyncCrash() {
 	}
 	n := vrt.Range("steps", 1, steps)
 	for i := 0; i < n; i++ {
-		switch vrt.Choose(vrt.K("op", i), 3) {
+		switch vrt.Choose(vrt.K("op", i), 4) {
+		case 3:
+			// a clean restart: everything acknowledged before it must survive a later kill
+			s.restart("async")
+			rotations = append(rotations, h.fs.Mark(vrt.K("rot", len(rotations))))
+			acksAtRotation = append(acksAtRotation, len(s.acks))
 		case 0:
 			s.put(h.ref[vrt.Choose(vrt.K("key", i), len(h.ref))].key)
 		case 1:
